@@ -26,6 +26,12 @@ var c16PlanQueries = [][2]string{
 		"SELECT y.c FROM (SELECT x.a, x.c FROM (SELECT t.a, COUNT(*) AS c FROM t.sym t GROUP BY t.a) x ORDER BY x.c LIMIT 1) y"},
 	/* 7 */ {"SELECT y.c FROM (SELECT x.a, x.c FROM (SELECT t.a, COUNT(*) AS c FROM t.sym t GROUP BY t.a TRIGGER COUNTING 1) x ORDER BY x.c, x.a LIMIT 2) y",
 		"SELECT y.c FROM (SELECT x.a, x.c FROM (SELECT t.a, COUNT(*) AS c FROM t.sym t GROUP BY t.a) x ORDER BY x.c, x.a LIMIT 2) y"},
+	// 8, 9: as 6, 7 but the outer query keeps x.a, so the optimiser cannot drop the column that makes
+	// the buffered rows distinct (in 6 and 7 it does, and the ORDER BY buffer only ever sees counts)
+	/* 8 */ {"SELECT y.a, y.c FROM (SELECT t.a, COUNT(*) AS c FROM t.sym t GROUP BY t.a TRIGGER COUNTING 1 ORDER BY c LIMIT 1) y",
+		"SELECT y.a, y.c FROM (SELECT t.a, COUNT(*) AS c FROM t.sym t GROUP BY t.a ORDER BY c LIMIT 1) y"},
+	/* 9 */ {"SELECT y.a, y.c FROM (SELECT x.a, x.c FROM (SELECT t.a, COUNT(*) AS c FROM t.sym t GROUP BY t.a TRIGGER COUNTING 1) x ORDER BY x.c, x.a LIMIT 2) y",
+		"SELECT y.a, y.c FROM (SELECT x.a, x.c FROM (SELECT t.a, COUNT(*) AS c FROM t.sym t GROUP BY t.a) x ORDER BY x.c, x.a LIMIT 2) y"},
 }
 
 // VerifC16PlanTriggers: Q = catalogue index, ROWS = max rows, OPT = 1 optimised plan.
